@@ -8,6 +8,7 @@ import (
 	"crypto/ecdsa"
 	"crypto/rsa"
 	"crypto/sha256"
+	"encoding/json"
 	"errors"
 	"fmt"
 	"net/http"
@@ -24,6 +25,8 @@ import (
 	"github.com/google/certificate-transparency-go/jsonclient"
 	"github.com/google/certificate-transparency-go/tls"
 	"github.com/google/certificate-transparency-go/trillian/ctfe"
+	"github.com/google/certificate-transparency-go/trillian/ctfe/cache"
+	"github.com/google/certificate-transparency-go/trillian/ctfe/configpb"
 	"github.com/google/certificate-transparency-go/x509"
 	"google.golang.org/grpc/codes"
 	"google.golang.org/grpc/status"
@@ -69,6 +72,13 @@ type Case struct {
 	// callbacks. Neither may change what is logged or served.
 	Verbosity  int
 	QuotaUsers bool
+	// TwinReadonly: the second front end over the same tree (own key) is configured read-only, with
+	// TwinMMD seconds of maximum merge delay; it must report the tree as the writable front end grows it
+	TwinReadonly bool
+	TwinMMD      int
+	// TwinStore (external chain storage): a further log with its own backend and its own chain storage, an LRU
+	// chain cache of 1-2 entries like the first log's, receives every submission right after the first log
+	TwinStore bool
 	// BackendMax > 0: the backend returns at most that many leaves per range request (short pages)
 	BackendMax int
 	// Bulky: some certificates carry 300-450 KiB of padding, so that a few entries exceed a megabyte
@@ -175,6 +185,10 @@ func genProcessOptions(t *rapid.T, c *Case) {
 	if rapid.IntRange(0, 2).Draw(t, "shortpages") == 0 {
 		c.BackendMax = rapid.IntRange(1, 3).Draw(t, "bmax")
 	}
+	if rapid.Bool().Draw(t, "twinro") {
+		c.TwinReadonly, c.TwinMMD = true, rapid.IntRange(0, 3).Draw(t, "twinmmd")
+	}
+	c.TwinStore = c.Indirect && rapid.Bool().Draw(t, "twinstore")
 }
 
 // bulkUp gives most submissions of a history 300-450 KiB of padding and makes the get-entries ranges long.
@@ -223,10 +237,16 @@ type run struct {
 	// lc2 talks to a second log instance with ANOTHER key over the same backend (two logs in one process
 	// whose tree heads are byte-identical): each must serve STHs under its own key
 	lc2 *client.LogClient
+	// be3 / inst3: a further log with its own backend and chain storage (TwinStore)
+	be3   *reflog.Log
+	inst3 *ctfex.Instance
 	// faultySTH: the backend's tree-head RPC is failing right now (sequential runs only)
 	faultySTH bool
 	// faulty: the backend fails the current read's RPC once (sequential runs only)
 	faulty bool
+	// parallel: several goroutines call exec at once (the fault hook of the backend is one shared field, so
+	// fault injection is off)
+	parallel bool
 }
 
 func newRun(t *testing.T, v *harness.Verdict, c Case) *run {
@@ -265,7 +285,44 @@ func newRun(t *testing.T, v *harness.Verdict, c Case) *run {
 	if key2 == r.logKey {
 		key2 = keys.Pick("p256", 11+c.LogKeyIdx)
 	}
-	if inst2, err := ctfex.New(ctfex.Opts{LogKey: key2, Roots: world.Roots(), Backend: r.be, Clock: r.clock, Prefix: "twin"}); err == nil {
+	twinCfg := func(cfg *configpb.LogConfig) {
+		if c.TwinReadonly {
+			cfg.IsReadonly, cfg.MaxMergeDelaySec = true, int32(c.TwinMMD)
+		}
+	}
+	if c.TwinReadonly {
+		v.Class("second-front-end-read-only")
+	}
+	if c.Indirect {
+		lruSize := 1 + int(c.ClockMs%2)
+		lru := func(io *ctfe.InstanceOptions) {
+			io.CacheType, io.CacheOption = cache.LRU, cache.Option{Size: lruSize, TTL: time.Hour}
+		}
+		if c.TwinStore {
+			// both logs get the same cache configuration; the first log's instance is rebuilt with it
+			o.Inst = func(io *ctfe.InstanceOptions) {
+				if c.QuotaUsers {
+					io.RemoteQuotaUser = func(*http.Request) string { return "remote-user" }
+					io.CertificateQuotaUser = func(c *x509.Certificate) string { return "@intermediate " + c.Subject.CommonName }
+				}
+				lru(io)
+			}
+			if inst, err = ctfex.New(o); err != nil {
+				t.Fatalf("instance: %v", err)
+			}
+			r.inst = inst
+			if r.lc, err = client.New("http://log.example/log", &http.Client{Transport: padTransport{ctfex.RoundTripper{Inst: inst}}}, jsonclient.Options{PublicKeyDER: r.logKey.SPKI}); err != nil {
+				t.Fatalf("client: %v", err)
+			}
+			r.be3 = reflog.New(7000, 1000003)
+			o3 := ctfex.Opts{LogKey: keys.Pick("p256", 12+c.LogKeyIdx), Roots: world.Roots(), Backend: r.be3, Clock: r.clock, Prefix: "other", LogID: 7000, ChainStorage: memstore.New(), Inst: lru}
+			if r.inst3, err = ctfex.New(o3); err != nil {
+				t.Fatalf("third instance: %v", err)
+			}
+			v.Class("another-log-with-own-chain-storage")
+		}
+	}
+	if inst2, err := ctfex.New(ctfex.Opts{LogKey: key2, Roots: world.Roots(), Backend: r.be, Clock: r.clock, Prefix: "twin", Cfg: twinCfg}); err == nil {
 		r.lc2, _ = client.New("http://log.example/twin", &http.Client{Transport: ctfex.RoundTripper{Inst: inst2}}, jsonclient.Options{PublicKeyDER: key2.SPKI})
 	}
 	r.seqNs = uint64(c.ClockMs)*1e6 + 999
@@ -381,7 +438,7 @@ func verifyDS(pub crypto.PublicKey, ds ct.DigitallySigned, msg []byte) error {
 var rpcOfRead = map[string]string{"cons": "GetConsistencyProof", "proof": "GetInclusionProofByHash", "entries": "GetLeavesByRange", "eap": "GetEntryAndProof"}
 
 func (r *run) exec(ctx context.Context, op Op, concurrent bool) {
-	if rpc := rpcOfRead[op.Kind]; op.Fault > 0 && rpc != "" && !concurrent {
+	if rpc := rpcOfRead[op.Kind]; op.Fault > 0 && rpc != "" && !concurrent && !r.parallel {
 		errs := []error{status.Error(codes.Unavailable, "injected"), status.Error(codes.DeadlineExceeded, "injected"), status.Error(codes.ResourceExhausted, "injected"), status.Error(codes.Internal, "injected"), errors.New("injected")}
 		fired := false
 		r.be.Intercept = func(c reflog.Call) (proto.Message, error, bool) {
@@ -480,6 +537,16 @@ func (r *run) exec(ctx context.Context, op Op, concurrent bool) {
 		r.mu.Lock()
 		r.issued = append(r.issued, issued{b, sct, asn1Chain(chain)})
 		r.mu.Unlock()
+		if r.inst3 != nil && !altered {
+			time.Sleep(300 * time.Microsecond) // the first log's best-effort cache write runs in the background
+			path := "/ct/v1/add-chain"
+			if b.Spec.Precert {
+				path = "/ct/v1/add-pre-chain"
+			}
+			if rsp := r.inst3.Post(path, addBody(chain)); rsp.Status != 200 {
+				r.failf("valid-chain-refused", "the other log of the process refused the chain the first log took: %d %s", rsp.Status, rsp.Body)
+			}
+		}
 		if altered {
 			r.class("altered-root-copy-admitted")
 		}
@@ -492,7 +559,7 @@ func (r *run) exec(ctx context.Context, op Op, concurrent bool) {
 	case "sth":
 		r.getSTH(ctx, concurrent)
 	case "sthfault":
-		if concurrent {
+		if concurrent || r.parallel {
 			return // the fault hook is one field of the shared backend
 		}
 		errs := []error{status.Error(codes.Unavailable, "injected"), status.Error(codes.DeadlineExceeded, "injected"), context.DeadlineExceeded, status.Error(codes.ResourceExhausted, "injected"), status.Error(codes.Internal, "injected"), errors.New("injected")}
@@ -714,8 +781,24 @@ func (r *run) getSTH(ctx context.Context, concurrent bool) {
 	r.mu.Unlock()
 	if r.lc2 != nil && !r.faultySTH {
 		// the twin log (same backend, other key) is asked right after: its client verifies under the twin's key
-		if _, err := r.lc2.GetSTH(ctx); err != nil {
+		before2 := len(r.be.PublishedRoots())
+		if sth2, err := r.lc2.GetSTH(ctx); err != nil {
 			r.failf("twin-sth", "a second log instance with its own key over the same tree served an STH its key does not verify: %v", err)
+		} else {
+			ok := false
+			roots := r.be.PublishedRoots()
+			lo := len(roots) - 1
+			if concurrent {
+				lo = before2 - 1
+			}
+			for i := len(roots) - 1; i >= lo && i >= 0; i-- {
+				x := roots[i]
+				ok = ok || (x.TreeSize == sth2.TreeSize && bytes.Equal(x.RootHash, sth2.SHA256RootHash[:]) && x.TimestampNanos/1e6 == sth2.Timestamp)
+			}
+			if !ok {
+				cur := roots[len(roots)-1]
+				r.failf("twin-sth-content", "the second front end of the tree served an STH (size %d, ts %d) that is not the backend's root (size %d, ts %d ms)", sth2.TreeSize, sth2.Timestamp, cur.TreeSize, cur.TimestampNanos/1e6)
+			}
 		}
 		if _, err := r.lc.GetSTH(ctx); err != nil {
 			r.failf("twin-sth", "after the twin log was asked, the first log's STH no longer verifies under its key: %v", err)
@@ -762,6 +845,22 @@ func (r *run) proofByHash(ctx context.Context, op Op) {
 
 // finalChecks links all served STHs pairwise and looks every issued SCT up.
 func (r *run) finalChecks(ctx context.Context) {
+	if r.inst3 != nil {
+		// everything the other log accepted must be readable from ITS storage
+		r.be3.Sequence(-1, r.seqNs+1)
+		time.Sleep(300 * time.Microsecond)
+		for i := 0; i < r.be3.Size(); i++ {
+			rsp := r.inst3.Get("/ct/v1/get-entries", fmt.Sprintf("start=%d&end=%d", i, i))
+			var ger ct.GetEntriesResponse
+			if rsp.Status != 200 || json.Unmarshal(rsp.Body, &ger) != nil || len(ger.Entries) != 1 {
+				r.failf("other-log-entry-unreadable", "the other log of the process cannot serve its entry %d: %d %s", i, rsp.Status, rsp.Body)
+				continue
+			}
+			if le, err := ct.LogEntryFromLeaf(int64(i), &ger.Entries[0]); le == nil || x509.IsFatal(err) {
+				r.failf("other-log-entry-undecodable", "entry %d of the other log does not decode: %v", i, err)
+			}
+		}
+	}
 	// (2) every two STHs served are linked by a served consistency proof that verifies
 	sizes := map[uint64][32]byte{}
 	for _, s := range r.sths {
@@ -809,22 +908,19 @@ func (r *run) finalChecks(ctx context.Context) {
 		}
 		h := rfc6962.LeafHash(lv)
 		// the library's own client-side computation must agree with the reference
+		// (a client holds the submitted certificate and the certificates above it: with a precertificate signing
+		// certificate in the chain the final issuer comes third)
 		var chain []*x509.Certificate
-		for _, d := range is.built.Full[:min(2, len(is.built.Full))] {
+		for _, d := range is.built.Full[:min(3, len(is.built.Full))] {
 			c, err := x509.ParseCertificate(d)
 			if c == nil {
 				r.t.Fatalf("parse: %v", err)
 			}
 			chain = append(chain, c)
 		}
-		if is.built.PreIssuer != nil {
-			// ctutil wants the final issuer at chain[1]
-			c, _ := x509.ParseCertificate(is.built.Issuer.DER)
-			chain[1] = c
-		}
 		if lh, err := ctutil.LeafHash(chain, is.sct, false); err != nil {
 			r.failf("ctutil-leafhash", "ctutil.LeafHash failed for issued SCT %d: %v", n, err)
-		} else if lh != h && is.built.PreIssuer == nil {
+		} else if lh != h {
 			r.failf("ctutil-leafhash", "ctutil.LeafHash differs from the RFC 6962 leaf hash for issued SCT %d", n)
 		}
 		// sequenced?
@@ -982,6 +1078,7 @@ func checkConc(t *testing.T, c Case) (v harness.Verdict) {
 		defer harness.SetKlogVerbosity(0)
 	}
 	r := newRun(t, &v, c)
+	r.parallel = true
 	r.inst.SlowWriter = true
 	ctx := context.Background()
 	var wg sync.WaitGroup
